@@ -186,7 +186,17 @@ def updater_tied(steps):
     """index of the updater step the updater session (command 1202) models: the first one, when its graph comes
     from one of the four built-in builders (custom graphs have no model: twin oracle only)"""
     rgu_at, _ = tie_plan(steps)
-    return rgu_at if rgu_at is not None and steps[rgu_at][1] < 4 else None
+    return rgu_at if rgu_at is not None and (steps[rgu_at][1] < 4 or RECIPE_TIE) else None
+
+
+RECIPE_TIE = True
+
+
+def graph_recipe(spec, code, seed):
+    """the custom graphs of build_graph as recipes of public building blocks (coq/model/CmdC16.v)"""
+    if code in (4, 5):
+        return c17.custom_recipe(common.num_machines_of(spec), len(spec), code == 5, seed)
+    return [[1], [3]]
 
 
 def build_graph(instance, code, seed=0):
@@ -197,11 +207,8 @@ def build_graph(instance, code, seed=0):
 
     if code < 4:
         return getattr(graphs, session.GRAPH_BUILDERS[code])(instance)
-    if code in (4, 5):
-        return c17.build_custom(instance, code == 5, seed)
-    g = graphs.JobShopGraph(instance)
-    graphs.add_conjunctive_edges(g)
-    return g
+    spec = common.spec_of_instance(instance)
+    return c17.build_from_recipe(instance, graph_recipe(spec, code, seed))
 
 
 class TieView:
@@ -452,8 +459,12 @@ class C12(Check):
                                 cre + [[0, e[1], e[2], [e[3]]] if e[0] == 0 else [1] for e in evs]]))
         if rgu_at is not None:
             st = steps[rgu_at]
-            reqs.append((1202, [case["spec"], case["filters"], c17.ENV_BUILDER[st[1]], updater_pre(steps),
-                                st[2], st[3], evs, tie["pre_removed"]]))
+            if st[1] < 4:
+                reqs.append((1202, [case["spec"], case["filters"], c17.ENV_BUILDER[st[1]], updater_pre(steps),
+                                    st[2], st[3], evs, tie["pre_removed"]]))
+            else:
+                reqs.append((1203, [case["spec"], case["filters"], graph_recipe(case["spec"], st[1], len(steps)),
+                                    updater_pre(steps), st[2], st[3], evs, tie["pre_removed"]]))
         return reqs
 
     def judge_tie(self, case, obs, outs):
